@@ -145,7 +145,12 @@ let handle line =
       bump ("CLS:" ^ res);
       Hashtbl.replace distinct ("C" ^ line) ();
       if m <> res then mismatch line ("classify model=" ^ m)
-  | ["CACHE"; hid; label; ops; "=>"; res] ->
+  | "ALIAS" :: hid :: what :: rest ->
+      incr pn;
+      let res = List.nth rest (List.length rest - 1) in
+      bump ("ALIAS:" ^ res);
+      if res <> "checked" then propfail line ("input-slice-modified " ^ what) "the caller's key slice is left unchanged"
+  | ["CACHE"; hid; label; sp; ops; "=>"; res] ->
       incr n; incr pn;
       let t = get_truth (int_of_string hid) in
       let hts = (match split_tab (Hashtbl.find hist_desc (int_of_string hid)) with _ :: _ :: ts1 :: _ -> n_of_hex ts1 | _ -> failwith "hist") in
@@ -161,15 +166,17 @@ let handle line =
         | RGet o -> show_opt o
         | RUnit -> "ok"
         | RErr -> "err:injected"
+        | RRefused -> "err:refused"
         | RBatch l ->
             let l = List.sort_uniq compare l in
             let l = List.sort (fun (a, _) (b, _) -> match lex_cmp a b with Lt -> -1 | Eq -> 0 | Gt -> 1) l in
             show_kvs false (List.filter_map (fun (k, o) -> match o with Some v -> Some (k, v) | None -> None) l) in
-      let mres = List.map show (c_run rd s0 ops) in
-      let fin = c_final rd s0 ops in
+      let sp = n_of_hex sp in
+      let mres = List.map show (c_run rd sp s0 ops) in
+      let fin = c_final rd sp s0 ops in
       let size = (match fin.cached with Some c -> count_distinct_keys c | None -> 0) in
       let m = String.concat ";" (mres @ [Printf.sprintf "size=%d" size]) in
-      bump "CACHE";
+      bump ("CACHE:" ^ label);
       Hashtbl.replace distinct ("K" ^ line) ();
       (* the model's answers are the uncached answers (C05_cache_transparent), so a difference in
          an answer is an oracle failure; a difference only in the cache size is a model mismatch *)
